@@ -221,3 +221,29 @@ if OUT:
         return res
 
     click.testing.CliRunner.invoke = _invoke
+
+
+# ------------------------------------------------------------------------------------------------------------------
+# API level: every AnnotationsItem.matches(path) call the repository's tests make (C05: judged by Glob.tla's two readings)
+API_OUT = os.environ.get("REUSE_VERIF_APITRACE")
+if API_OUT:
+    try:
+        from reuse.global_licensing import AnnotationsItem as _AI
+
+        _orig_matches = _AI.matches
+
+        def _matches(self, path):
+            res = _orig_matches(self, path)
+            try:
+                globs = sorted(str(g) for g in self.paths)
+                if all(s.isascii() for s in globs + [str(path)]):
+                    with open(API_OUT, "a") as fh:
+                        fh.write(json.dumps({"globs": globs, "path": str(path), "result": bool(res),
+                                             "test": os.environ.get("PYTEST_CURRENT_TEST", "").split(" ")[0]}) + "\n")
+            except Exception:  # noqa: BLE001 - recording must never change the outcome of a test
+                pass
+            return res
+
+        _AI.matches = _matches
+    except Exception:  # noqa: BLE001
+        pass
